@@ -29,18 +29,26 @@ type c14Seg struct {
 	Name     string
 	Text     string
 	Terminal bool // nothing can follow on the connection (close, hijack, broken request)
+	// only enumerated in the thorough tier
+	ThoroughOnly bool
 }
 
 var c14Segs = []c14Seg{
-	{"get", "GET /a HTTP/1.1\r\nHost: h\r\n\r\n", false},
-	{"post", "POST /b HTTP/1.1\r\nHost: h\r\nContent-Length: 3\r\n\r\nabc", false},
-	{"second-conn", "GET /second HTTP/1.1\r\nHost: h\r\n\r\n", false}, // the handler brings up a second connection from the same IP
-	{"get-close", "GET /close HTTP/1.1\r\nHost: h\r\nConnection: close\r\n\r\n", true},
-	{"hijack", "GET /hijack HTTP/1.1\r\nHost: h\r\n\r\n", true},
-	{"partial-head", "GET /a HTTP/1.1\r\nHo", true},
-	{"partial-body", "POST /b HTTP/1.1\r\nHost: h\r\nContent-Length: 10\r\n\r\nabc", true},
-	{"parse-error", "GET / HTTP/1.1\r\nHost: h\r\n: novalue\r\n\r\n", true},
-	{"garbage", "\x00\x01\x02\r\n\r\n", true},
+	{"get", "GET /a HTTP/1.1\r\nHost: h\r\n\r\n", false, false},
+	{"post", "POST /b HTTP/1.1\r\nHost: h\r\nContent-Length: 3\r\n\r\nabc", false, false},
+	{"second-conn", "GET /second HTTP/1.1\r\nHost: h\r\n\r\n", false, false}, // the handler brings up a second connection from the same IP
+	{"get-close", "GET /close HTTP/1.1\r\nHost: h\r\nConnection: close\r\n\r\n", true, false},
+	{"hijack", "GET /hijack HTTP/1.1\r\nHost: h\r\n\r\n", true, false},
+	{"partial-head", "GET /a HTTP/1.1\r\nHo", true, false},
+	{"partial-body", "POST /b HTTP/1.1\r\nHost: h\r\nContent-Length: 10\r\n\r\nabc", true, false},
+	{"parse-error", "GET / HTTP/1.1\r\nHost: h\r\n: novalue\r\n\r\n", true, false},
+	{"garbage", "\x00\x01\x02\r\n\r\n", true, false},
+	// requests that end through the timeout path: the server answers from a swapped-in RequestCtx and the connection goes on
+	// (appended: recorded artefacts refer to segments by index)
+	{"get-timeout-error", "GET /timeout-error HTTP/1.1\r\nHost: h\r\n\r\n", false, false},
+	{"get-timeout-response", "GET /timeout-response HTTP/1.1\r\nHost: h\r\n\r\n", false, false},
+	{"get-timeout-code", "GET /timeout-code HTTP/1.1\r\nHost: h\r\n\r\n", false, true},
+	{"get-timeout-handler", "GET /timeout-handler HTTP/1.1\r\nHost: h\r\n\r\n", false, true},
 }
 
 var c14Ends = []string{"eof", "silent-timeout", "read-error"}
@@ -170,6 +178,21 @@ func (w *c14World) hook(nc net.Conn, st ConnState) {
 
 func (w *c14World) handler(ctx *RequestCtx) {
 	switch string(ctx.Path()) {
+	case "/timeout-error":
+		ctx.TimeoutError("t")
+	case "/timeout-code":
+		ctx.TimeoutErrorWithCode("t", StatusServiceUnavailable)
+	case "/timeout-response":
+		var resp Response
+		resp.SetStatusCode(StatusGatewayTimeout)
+		resp.SetBodyString("t")
+		ctx.TimeoutErrorWithResponse(&resp)
+	case "/timeout-handler":
+		// the inner handler is released only after the wrapper returned: the (1 ns) timeout always fires
+		rel := make(chan struct{})
+		TimeoutHandler(func(*RequestCtx) { <-rel }, 1, "t")(ctx)
+		close(rel)
+		return
 	case "/hijack":
 		ctx.Hijack(func(c net.Conn) {
 			defer close(w.hijacked)
@@ -486,6 +509,9 @@ func TestVerif_C14(t *testing.T) {
 
 	var nonTerm, term []int
 	for i, s := range c14Segs {
+		if s.ThoroughOnly && !r.Thorough() {
+			continue
+		}
 		if s.Terminal {
 			term = append(term, i)
 		} else {
